@@ -223,7 +223,7 @@ PARTS = {"reinsert": (reinsert_case, run_reinsert), "search": (search_case, run_
 
 def plan(tier):
     if tier == "quick":
-        return [{"part": "reinsert", "shards": 8, "budget": {"n_examples": 1000}}, {"part": "search", "shards": 8, "budget": {"n_examples": 500}}]
+        return [{"part": "reinsert", "shards": 8, "budget": {"n_examples": 2000}}, {"part": "search", "shards": 8, "budget": {"n_examples": 1200}}]
     return [{"part": "reinsert", "shards": 8, "budget": {"n_examples": 30000}}, {"part": "search", "shards": 8, "budget": {"n_examples": 15000}}]
 
 
